@@ -419,8 +419,24 @@ func (state *RuntimeState) validateUserTOTP(username string, OTPValue int, t tim
 		if !valid {
 			continue
 		}
+		// The validator accepts one period of clock skew: find the period the
+		// value belongs to, so that a value that was already used in the
+		// previous period is not accepted again.
+		matchedCounter := counter
+		for _, delta := range []int64{-1, 0, 1} {
+			code, err := totp.GenerateCode(string(clearTextKey),
+				time.Unix((counter+delta)*defaultPeriod, 0))
+			if err == nil && code == OTPString {
+				matchedCounter = counter + delta
+				break
+			}
+		}
+		if matchedCounter <= profile.LastSuccessfullTOTPCounter {
+			logger.Printf("validateUserTOTP: TOTP value already used")
+			continue
+		}
 		if !fromCache {
-			profile.LastSuccessfullTOTPCounter = counter
+			profile.LastSuccessfullTOTPCounter = matchedCounter
 			err = state.SaveUserProfile(username, profile)
 			if err != nil {
 				logger.Printf("Saving profile error: %v", err)
